@@ -28,8 +28,9 @@ from apischema import ValidationError, deserializer, schema, serializer, type_na
 from apischema.conversions import Conversion, as_str, catch_value_error
 
 # =================== bytes =====================
+# binascii.Error raised for invalid base64 is a ValueError
 
-deserializer(Conversion(b64decode, source=str, target=bytes))
+deserializer(Conversion(catch_value_error(b64decode), source=str, target=bytes))
 
 
 @serializer
